@@ -12,7 +12,7 @@ def check(rep):
     ER.rule_retained_arguments(ctx, rid="C10.NO-RETAINED-ARGUMENT", modules={"binning/binning.py"})
     PR.rule_compiles(ctx, rid="C10.SHAPE-COMPILES", strict=False)
     PR.rule_key(ctx, rid="C10.ONE-KEY", mode="position")
-    PR.rule_translation(ctx, rid="C10.DECLARED-ORDER", focus="groups")
+    PR.rule_translation(ctx, rid="C10.DECLARED-ORDER", focus="order")
     rep.assume("the consequence 'no unit moves to a later group when no leading cumulative share decreases' follows from one "
                "position per unit + right bisection on prefix sums by arithmetic; that last step is an argument in DESIGN.md")
     return ("Backward slice of the hash argument at every deterministic_proba call site is the id parameter alone; no second "
